@@ -34,14 +34,17 @@ NSHARDS = 16
 TIME_CAP = {"quick": 150, "thorough": 600}
 
 OBJ_MODES = False  # the oracle here IS fresh-vs-shared objects; the builders must hand out plain fresh ones
-OPS = ["validate", "validate", "test", "filter", "get", "get_paths", "ctest"]
+OPS = ["validate", "validate", "test", "filter", "get", "get_paths", "ctest", "look"]
 
 
 def _schema_terms(rng, docs, tier):
     doc = rng.choice(docs)
     rules = []
     for _ in range(rng.randint(1, 4)):
-        p = G.path_for(rng, doc, maxlen=3, cond_depth=rng.choice([0, 1]), prim_p=rng.choice([0.3, 0.7]), miss_p=0.1)
+        if rules and rng.random() < 0.3:
+            p = rng.choice(rules)["path"]  # a second rule on the very same path
+        else:
+            p = G.path_for(rng, doc, maxlen=3, cond_depth=rng.choice([0, 1]), prim_p=rng.choice([0.3, 0.7]), miss_p=0.1)
         sel = M.walk(p, doc)
         nodes = [x for _, x in sel] if sel is not M.SKIP else []
         r = rng.random()
@@ -194,6 +197,8 @@ def result_fp(op, out):
         return ("fd", tuple(v.result), canon(v.data), canon(v.keys))
     if op == "ctest":
         return ("ct", tuple(v))
+    if op == "look":
+        return ("look",)
     return ("get", canon(v))
 
 
@@ -205,6 +210,13 @@ def do(op, schema, ri, doc):
         return call(rule.test, doc)
     if op == "filter":
         return call(rule.condition.filter, doc)
+    if op == "look":
+        # the owner looks at its schema: prints, compares, hashes, serialises, copies, derives paths and combinations
+        def look():
+            build._look(schema)
+            twin = __import__("copy").deepcopy(schema)
+            return (schema == twin, twin == schema, rule == twin.rules[ri % len(twin.rules)], rule in list(schema.rules))
+        return call(look)
     if op == "ctest":
         # the single-datum entry point, item by item (typed twins 1 / 1.0 / True follow one another in many documents)
         raw = doc.get_original() if hasattr(doc, "get_original") else doc
@@ -227,6 +239,11 @@ def do(op, schema, ri, doc):
 def run(case, ctx):
     import valida
     schemas_t, docs_t = case["schemas"], case["docs"]
+    # in every second history the rules of a schema that have equal paths / conditions / casts hold ONE shared object
+    # (fresh and pool schemas alike, each with sub-objects of its own)
+    build.begin_case("shared" if len(repr(schemas_t)) % 2 else None)
+    if len(repr(schemas_t)) % 2:
+        ctx.count("histories-with-shared-sub-objects")
     threaded = "threads" in case
     all_ops = [o for t in case["threads"] for o in t] if threaded else case["ops"]
     # 1. fresh-object results, computed before the history starts
